@@ -411,6 +411,25 @@ def run(ctx):
         if "parse" in c.methods:
             scratch_rule(ctx, r, c.methods["parse"])
 
+    # ---------------------------------------------------------------- R15
+    r = ctx.rule("C04-R15", "ORDER", "'no other handler runs' when a pre-handle listener handled the event: the command's handler is not even looked up (a handler given as a "
+                 "factory is created by the look-up) on a path that ends in the handled return", reference=1)
+    cfgd = ctx.cfg(do_handle)
+    lookups = [n for n in cfgd.nodes if n.kind in ("stmt", "return", "cond") and n.ast is not None and any(isinstance(x, ast.Attribute) and x.attr == "handler" and isinstance(x.ctx, ast.Load) for x in walk_no_nested(n.ast))]
+    handled_rets = [n for n in cfgd.nodes if n.kind == "return" and any(cfgd.dominates(t.id, n.id) for t in handled_true)]
+    if not lookups:
+        r.fail(do_handle, do_handle.node, "no handler look-up", "_do_handle never reads the configured handler")
+    elif not handled_rets:
+        r.note("no handled return in _do_handle")
+        r.vacuous_ok = True
+    else:
+        early = [l for l in lookups if any(h.id in cfgd.reach([l.id]) for h in handled_rets)]
+        if early:
+            r.fail(do_handle, early[0].ast, norm(early[0].ast) + " before the handled return", "%s reads the configured handler (%s) on a path that can still end in the handled return: with a handler factory, "
+                   "`--version` builds the command's handler - and fails with it when building fails" % (do_handle.short, norm(early[0].ast)))
+        else:
+            r.ok("%s: handler looked up only after the handled return was passed" % do_handle.short)
+
     # ---------------------------------------------------------------- R13 / R14
     ctx.borrow("c12", "C12-R1", "C04-R13", "a pre-handle listener registered between two runs takes part in the next run (it may handle the event, i.e. "
                "decide that the command handler runs zero times): every write to the listener store drops the sorted cache of that event on all paths")
